@@ -13,7 +13,8 @@ CHECKS = {
         level="model_checking",
         text=("TLC explores the complete state graph of the joint EBSP writer/reader automaton for unbounded streams "
               "(BitsAbs), enumerates every raw byte string over the behaviour-relevant alphabet up to the bound and "
-              "every op sequence up to the bound (BitsBytes/BitsOps) checking the standard's escape/Exp-Golomb rules "
+              "every op sequence up to the bound (BitsBytes/BitsOps; ops include byte strings read back by one ReadBytes call at any bit "
+              "alignment) checking the standard's escape/Exp-Golomb rules "
               "as invariants; every enumerated behaviour is replayed into the real bits package and compared with the "
               "spec's expected bytes/values/positions, and byte-granular traces of the real coders (with hook state) "
               "are validated step by step by BitsTrace."),
@@ -42,7 +43,8 @@ CHECKS = {
               "proves Impl = reference scan for ALL streams over {00,01,other} up to the bound at word size 4, enumerates every "
               "window at every alignment for the real 8-byte word and structured AVC/HEVC unit streams; each is replayed into "
               "the real scanner (hook), converters and all helpers, and long random streams are validated as traces by "
-              "AnnexBTrace.tla."),
+              "AnnexBTrace.tla. The built mp4ff-nallister -annexb runs on the unit streams and its listing is compared with the "
+              "model's unit sequence (type, length)."),
         note=("Trusted: TLC, Go replayer incl. its own length-prefix walker. Byte values matter only through classes {00,01,other} "
               "(seeded concretisation of 'other'). NAL units >= 64 KiB not generated."),
         technique="TLA+ spec + TLC exhaustive enumeration, behaviour replay into real code, TLC trace validation",
@@ -75,7 +77,7 @@ CHECKS = {
     "C12": dict(
         level="model_checking",
         text=("FileAsm.tla generates every fragmented file layout with mutually consistent delimiters (styp, top-level sidx, "
-              "mfra+ISM flag, start-on-moof, segment-level sidx, emsg placements, 1-2 tracks), states the prescribed partition "
+              "mfra+ISM flag, start-on-moof, segment-level sidx, emsg placements, 1-2 tracks, 1-2 truns per traf), states the prescribed partition "
               "(Prop) and folds an Impl model of File.AddChild/startSegmentIfNeeded over the box sequence; TLC checks Impl = Prop "
               "for all layouts and exports them; each is materialised with real sizes (two-pass sidx/tfra), decoded by both file "
               "decoders, and the observed partition, the segment-mode re-encoding and the index written by UpdateSidx (read back by "
@@ -106,24 +108,28 @@ CHECKS = {
               "segment; it states what ISO/IEC 14496-12/-30 require per media type (handler, media header, language packing or elng, "
               "sample entry) and the id/trex/next-track-id invariants; TLC enumerates all histories up to the track bound and "
               "exports the expected projection; each is replayed through the real API, projected before and after an encode/decode "
-              "round trip through both decoders, re-encoded, and a fragment per track id is read back against the decoded init."),
-        note=("Trusted: TLC, Go replayer. Codec parameter sets are the repository's own test vectors (one per codec); their parsed "
-              "dimensions are trusted here (C15 judges the parsers)."),
+              "round trip through both decoders, re-encoded, and a fragment per track id is read back against the decoded init. "
+              "In addition every SPS NAL unit serialised by AvcSyntax.tla / HevcSyntax.tla is given to SetAVCDescriptor / "
+              "SetHEVCDescriptor (avc1, avc3, hvc1, hev1): sample entry dimensions, tkhd, configuration record profile / level / chroma / "
+              "bit depths and the SPS verbatim are compared with the coded values, as built and after encode + decode (both decoders)."),
+        note=("Trusted: TLC, Go replayer. The descriptor histories use the repository's own test vectors (one per codec); the spec-"
+              "serialised SPS family uses a fixed PPS / VPS."),
         technique="TLA+ history spec + TLC exhaustive enumeration, behaviour replay into real code",
         design_ref="DESIGN.md section 5 C19",
     ),
     "C01": dict(
         level="model_checking",
-        text=("BoxLayouts.tla holds the field layout of 134 box shapes (from ISO/IEC 14496-12/-15/-30, 23001-7, ETSI TS 102 366, not from the Go code) in a "
+        text=("BoxLayouts.tla holds the field layout of 151 box shapes - all 130 registered four-character codes - (from ISO/IEC 14496-12/-15/-30, 23001-7, ETSI TS 102 366, not from the Go code) in a "
               "layout DSL with an interpreter that serialises an instance to bytes, the canonical re-encoding and a bit-level don't-care mask. TLC "
-              "enumerates every instance (version x every subset of the defined flags x counts x header form x nesting, one field at a time at "
-              "boundary values, distinct fillers elsewhere); each goes through DecodeBox/DecodeBoxSR/DecodeFile/DecodeFileSR and Encode/EncodeSW of "
+              "enumerates every instance (version x every subset of the defined flags x counts (0 = empty container) x header form x nesting "
+              "{alone, only child, first child followed by a sibling}, one field at a time at boundary values, distinct fillers elsewhere; every "
+              "arrangement of up to 5 children of moov under the order normalisation N2); each goes through DecodeBox/DecodeBoxSR/DecodeFile/DecodeFileSR and Encode/EncodeSW of "
               "the real code: masked byte equality, re-decode, second encode identical. Corpus and materialised files and their boxes run the same "
               "pipeline under the committed dontcare.json (cross-checked against the spec's masks). All recorded pipelines are validated against "
               "BoxRoundTrip.tla, whose actions are enabled only by observations the property allows."),
         note=("Trusted: TLC, the layouts (reviewed against the standards; every layout must be accepted by a decoder or the run reports drift), "
-              "the Go driver, FNV digests in traces. Structure equality is judged on the Info projection plus encoded bytes. Box types without a "
-              "layout are covered only by corpus objects. Known findings: depth, samplerate fraction, data box indicators, trun data_offset 0."),
+              "the Go driver, FNV digests in traces. Structure equality is judged on the Info projection plus encoded bytes. Every registered box type has a "
+              "layout. Known findings: depth, samplerate fraction, data box indicators, trun data_offset 0."),
         technique="TLA+ layout spec: TLC enumerates box instances, replayed through the real decoders/encoders; TLC trace validation of the recorded round trips",
         design_ref="DESIGN.md section 5 C01",
     ),
@@ -134,7 +140,8 @@ CHECKS = {
               "(written = Size after = Size before unless optimising; independent walker: every header size field = box length, "
               "containers = header + children; identical bytes across encodes and encoders; Size stable across calls). Histories are "
               "executed on every object of a pool: every box at every nesting level of every decodable corpus file, whole files in both "
-              "encode modes, their init/segments/fragments, and API-built fragments, media segments and init segments."),
+              "encode modes, their init/segments/fragments, API-built fragments, media segments and init segments, and materialised files "
+              "(64-bit mdat, truns without data offset in three tfhd forms, encrypted and mixed-protection segments)."),
         note=("Trusted: TLC, Go driver and its independent walker, FNV digests for byte identity. The pool holds the box types and shapes "
               "present in the corpus and the API-built objects, not every version/flag shape of every box (C01 layouts extend it)."),
         technique="TLA+ history spec: TLC enumerates call histories, replayed on real objects, TLC trace validation of recorded numbers",
@@ -204,7 +211,10 @@ CHECKS = {
               "Every input runs through every entry point of its family (NAL walkers, Annex B scanners, AVC/HEVC SPS/PPS/slice parsers "
               "against several SPS contexts, SEI extraction and all decoders with String/Payload/Size, ADTS/ASC, avcC/hvcC/av1C/esds) "
               "in an isolated worker under recover(), a 6 s watchdog and ulimit -v; crashes are attributed through a progress file; "
-              "TLC validates every recorded outcome."),
+              "TLC validates every recorded outcome. H6: NAL sequences that bring their own context (SPS, PPS, then slice / SEI) with "
+              "count and range bombs in the parameter sets. The built mp4ff-nallister / mp4ff-pslister binaries run on Annex B streams "
+              "chosen by structural signature from all generated windows and on media segments without moov with every spelling of -c; "
+              "a Go panic or no return within 20 s is a violation."),
         note=("The decisive observation is the runtime monitor on the real code; TLC supplies the H1 grammar and the bases and "
               "evaluates the invariant on the recorded outcomes. Exhaustive over the stated grammar only, not over all byte strings. "
               "Quick tier takes a seeded slice of the larger families."),
@@ -216,7 +226,10 @@ CHECKS = {
         text=("ContainerShapes.tla enumerates the G1 grammar (every pair and the triples behind the listed heads over 56 box variants "
               "that remove / duplicate / corrupt exactly the children and fields the decoder dereferences); the orchestrator applies the "
               "mutation operators G2-G5 (size and largesize fields, count inflation for 16 counted box types, truncation at every box "
-              "boundary, deletion and swap) to every corpus file and a slice of G1; every input runs through DecodeFile / lazy / "
+              "boundary, deletion and swap) to every corpus file and a slice of G1; G6 = every BoxLayouts.tla instance with G2/G3 applied; "
+              "G7 = CrossRefs.tla, every combination of variants of the children of a traf (with a clear / cenc / cbcs init or none) and of an "
+              "stbl that refer to each other (counts, offsets, group indices), deviating from the consistent baseline in <= 3 children "
+              "(thorough: all); every input runs through DecodeFile / lazy / "
               "DecodeFileSR under all four flag combinations and both box loops, followed by Info at four levels and Encode/EncodeSW "
               "in both modes with and without optimisation, in isolated workers under recover(), a 6 s watchdog and ulimit -v; "
               "Robust.tla's totality invariant (no panic, no fatal crash, 2 s + 20 us/byte, 16 MiB + 1024 x length) is validated by TLC "
@@ -232,7 +245,8 @@ CHECKS = {
               "inputs and enumerates every call-level interleaving of every program tuple (history variable); each schedule is replayed "
               "deterministically against the real library with digests of the shared inputs, the decoder registries (hook) and every "
               "live object after each call, and TLC validates Q1 (nothing shared is written), Q2 (each result equals the goroutine's "
-              "solo run, with per-goroutine reused key buffers) and Q3 (no other goroutine's object changes). The same programs run on "
+              "solo run, with per-goroutine reused key buffers, and key material passed as slices of one shared buffer) and Q3 (no other "
+              "goroutine's object changes). The same programs run on "
               "real goroutines under the Go race detector with results compared against solo runs."),
         note=("Call-level interleavings decide hidden state and aliasing; memory-access-level data races are decided by the race "
               "detector on the runs performed (writes inside assembly cipher routines are not instrumented). Level: exploration."),
@@ -258,7 +272,8 @@ CHECKS = {
         text=("Segmenter.tla models the segment-start selection, the per-track sample intervals and the resegmenter loop (Impl) and TLC "
               "checks that they tile 1..N for every track, sync spacing and target duration of the generator and that every start is a "
               "sync sample; the generated progressive files (video with every sync set, optional audio in another timescale) x segment "
-              "durations and fragmented inputs (every split into fragments, one or two truns) x chunk durations are materialised; the "
+              "durations and fragmented inputs (every split into fragments, one or two truns, non-sync samples marked dependent or "
+              "independent-but-non-sync) x chunk durations are materialised; the "
               "BUILT examples/segmenter (single-track, -m, -lazy, -m -lazy), examples/resegmenter and examples/combine-segs binaries and "
               "MediaSegment.Fragmentify run on them and every output is read by the harness's independent ISO reader: per track the "
               "concatenated sample sequence must equal the input (count, bytes, durations, sync flag, composition offset, decode "
